@@ -112,11 +112,13 @@ func c16Shapes(tier string) map[string]func() any {
 		"float":       func() any { return 1.5 },
 		"template":    func() any { return "{{.NOPE}} {{" },
 		// strings that a shell-word expansion (dir:, include taskfile:/dir:) reads as no word or as an error
-		"hash_str":     func() any { return "#out" },
-		"backslash_nl": func() any { return "\\\n" },
-		"blank_str":    func() any { return " \t " },
-		"shell_meta":   func() any { return "$(x ${ `" },
-		"list_opt_o":   func() any { return []any{"errexit", "o"} }, // set: / shopt: entries that are bare option letters
+		"hash_str":                 func() any { return "#out" },
+		"backslash_nl":             func() any { return "\\\n" },
+		"blank_str":                func() any { return " \t " },
+		"shell_meta":               func() any { return "$(x ${ `" },
+		"yaml_date":                func() any { return time.Date(2001, 12, 14, 0, 0, 0, 0, time.UTC) }, // an unquoted 2001-12-14 decodes to a time value
+		"for_var_and_empty_matrix": func() any { return map[string]any{"var": "X", "matrix": map[string]any{}} },
+		"list_opt_o":               func() any { return []any{"errexit", "o"} }, // set: / shopt: entries that are bare option letters
 	}
 	for _, k := range c16Known {
 		k := k
@@ -197,7 +199,7 @@ func c16Crash(se string, rc int) string {
 func panicSite(se string) string {
 	lines := strings.Split(se, "\n")
 	for i, l := range lines {
-		if strings.HasPrefix(l, "github.com/go-task/task/v3") && i+1 < len(lines) {
+		if strings.HasPrefix(l, "github.com/go-task/task/v3") && !strings.HasPrefix(l, "github.com/go-task/task/v3/zverif/") && i+1 < len(lines) {
 			fn := l
 			if j := strings.IndexByte(fn, '('); j > 0 && !strings.Contains(fn[:j], ".") {
 				fn = fn[:j]
